@@ -12,3 +12,19 @@ Print Assumptions C07_unsat. Print Assumptions C07_cube. Print Assumptions C07_i
 
 Example C07_instance : robdd (Nd (Nd F 1 T) 0 (Nd T 1 F)) /\ bmodel (Nd (Nd F 1 T) 0 (Nd T 1 F)) = Nd (Nd F 1 T) 0 F /\ binfer (Nd (Nd F 1 T) 0 F) 0 = (true, true).
 Proof. split; [split; cbn; repeat split; auto; discriminate|]. split; vm_compute; reflexivity. Qed.
+
+(** ... and for every ORDERED diagram, reduced or not (the enum is public: a node can be allocated without mk_choice, so a diagram
+    may contain redundant tests and dead nodes with two unsatisfiable branches): the same three statements *)
+From Rsbdd Require Import Core.CubeOrd.
+Theorem C07_unsat_ordered a : ord 0 a -> (bmodel a = F <-> forall s, beval s a = false). Proof. exact (CubeOrd.C07_unsat_ordered a). Qed.
+Theorem C07_cube_ordered a : ord 0 a -> bmodel a <> F ->
+  is_cube (bmodel a) /\ robdd (bmodel a) /\ incl (support (bmodel a)) (support a) /\
+  forall s, beval s (bmodel a) = true -> beval s a = true.
+Proof. exact (CubeOrd.C07_cube_ordered a). Qed.
+Theorem C07_infer_ordered m v : ord 0 m -> (binfer m v = (true, true) <-> forall s, beval s m = true -> s v = true).
+Proof. exact (CubeOrd.C07_infer_ordered m v). Qed.
+Print Assumptions C07_unsat_ordered. Print Assumptions C07_cube_ordered. Print Assumptions C07_infer_ordered.
+(** a dead node under a live one: not reduced, satisfiable through the else-branch *)
+Example C07_ordered_instance :
+  let a := Nd (Nd F 1 F) 0 T in ord 0 a /\ ~ red a /\ bmodel a = Nd F 0 T.
+Proof. split; [cbn; repeat split; auto using le_n, le_S|]. split; [cbn; intros (_ & (H & _) & _); apply H; reflexivity|vm_compute; reflexivity]. Qed.
